@@ -311,7 +311,9 @@ def run(chk):
         items = []
         for i, t in enumerate(tree, 1):
             if t != "Conly":
-                items.append(("struct", f"#[typeshare]\npub struct M{i} {{ pub m: u32 }}\n"))
+                # the annotation in each of its spellings (bare, with arguments, through the crate path): which spellings share a FILE changes with the split
+                ann = ["#[typeshare]", "#[typeshare::typeshare]", '#[typeshare(swift = "Equatable")]', "#[::typeshare::typeshare]"][i % 4]
+                items.append(("struct", f"{ann}\npub struct M{i} {{ pub m: u32 }}\n"))
             items += items_of(t, i)
         splits = {
             "one-file": {"a/src/all.rs": "".join(x[1] for x in items)},
